@@ -62,6 +62,12 @@ declarations:
       brief: get value
   - decl: void fill(std::vector<double> &v +intent(out))
   - decl: int m_count +readonly
+- decl: "class Derived : public Obj"
+  doxygen:
+    brief: a derived class
+  declarations:
+  - decl: Derived()
+  - decl: int extra(int a)
 """
 OPTS = ["debug", "doxygen", "show_splicer_comments", "write_version", "literalinclude"]
 DEFAULTS = {"debug": False, "doxygen": True, "show_splicer_comments": True, "write_version": True, "literalinclude": False}
@@ -80,7 +86,7 @@ def apply(desc, subset, mode):
             argv.append("--write-version" if val else "--nowrite-version")
         elif o == "literalinclude":
             if val:
-                for f in functions_under(d):
+                for f in functions_under(d) + classes_under(d):
                     f.setdefault("options", {})["literalinclude"] = True
         elif o == "show_splicer_comments" or mode == "global":
             opts[o] = val
@@ -88,6 +94,16 @@ def apply(desc, subset, mode):
             for f in functions_under(d):
                 f.setdefault("options", {})[o] = val
     return d, argv
+
+
+def classes_under(node):
+    out = []
+    for d in node.get("declarations", []):
+        if "decl" in d and d["decl"].strip().startswith(("class ", "struct ")) and "declarations" in d:
+            out.append(d)
+        if "declarations" in d:
+            out += classes_under(d)
+    return out
 
 
 def strip(tree):
@@ -141,11 +157,11 @@ def run(ctx):
                 meta.append((dn, mode, s))
     # one declaration at a time: the declaration-scoped options flipped on a single function
     for dn, desc in descs.items():
-        nf = len(functions_under(desc))
+        nf = len(functions_under(desc)) + len(classes_under(desc))
         for i in range(nf):
             for s in ([frozenset(["literalinclude"]), frozenset(["debug", "doxygen", "literalinclude"])] if not quick or dn == "doc" else [frozenset(["debug", "doxygen", "literalinclude"])]):
                 d = copy.deepcopy(desc)
-                f = functions_under(d)[i]
+                f = (functions_under(d) + classes_under(d))[i]
                 for o in s:
                     f.setdefault("options", {})[o] = not DEFAULTS[o]
                 jobs.append((os.path.join(wd, "j%d" % len(jobs)), d, ["--write-version"]))
